@@ -124,7 +124,6 @@ func TestHuntServerEmptyTransaction(t *testing.T) {
 // client gets no list of results at all instead of the results of the
 // operations before it followed by an error.
 func TestHuntServerUndecodableOperationGivesNoResults(t *testing.T) {
-	t.Skip("observation outside the property (a request that cannot be decoded is answered with an rpc error)")
 	srv, _, _, stop := huntServer(t)
 	defer stop()
 	good := `{"op":"insert","table":"Port","row":{"name":"p"}}`
